@@ -150,7 +150,7 @@ def _call(ctx, cc, case, label, fn, fam_counter):
     return res
 
 
-def _outer(ctx, cc, case, label, key, got_t, want, tol, judged=None, alt=None):
+def _outer(ctx, cc, case, label, key, got_t, want, tol, judged=None, alt=None, atol=None):
     """Harness-level comparison of what the public entry point returned."""
     import numpy as np
 
@@ -162,7 +162,7 @@ def _outer(ctx, cc, case, label, key, got_t, want, tol, judged=None, alt=None):
     if tol is cc.TOL32:
         j32 = np.abs(want) < cc.BIG32
         judged = j32 if judged is None else (judged & j32)
-    bad, j = cc.bad_entries(got, want, tol[0], tol[1], judged)
+    bad, j = cc.bad_entries(got, want, tol[0], tol[1] if atol is None else atol, judged)
     ctx.count("outer_entries_judged", int(j.sum()))
     if bad.any():
         if alt is not None and (bad & alt[0]).any():  # a separately classified mechanism
@@ -434,6 +434,7 @@ def _direct_weibull(spec, ctx, cc):
         ctx.evaluated()
         T = ref.weibull_terms(cc._np(tt), obs, cc._np(nu_t), cc._np(rho_t), cc._np(xi_t), cc._np(tau_t), None if sh_t is None else cc._np(sh_t))
         tol = cc.tol_of(tt, *params)
+        atol_w = cc._weibull_atol(tol, cc._np(rho_t), T)  # conditioning of (t/nu)^rho: see the contract module
         early = T["observed"] & ~T["after"]
         ctx.count("weibull_at_tau_entries", int((T["at_tau"]).sum()))
         ctx.count("weibull_censored_before_reference_entries", int((~T["observed"] & ~T["after"]).sum()))
@@ -452,18 +453,18 @@ def _direct_weibull(spec, ctx, cc):
             if res is None:
                 continue
             if path == "compute_log_survival":
-                ok = _outer(ctx, cc, c2, f"weibull/{path}", "weibull/log-survival-mismatch", res, -T["neg_log_S"], tol)
+                ok = _outer(ctx, cc, c2, f"weibull/{path}", "weibull/log-survival-mismatch", res, -T["neg_log_S"], tol, atol=atol_w)
             elif path == "compute_log_likelihood_hazard":
                 want = np.where(T["observed"], np.where(T["after"], T["log_h"], np.nan), 0.0)
-                ok = _outer(ctx, cc, c2, f"weibull/{path}", "weibull/log-hazard-mismatch", res, want, tol, alt=alt)
+                ok = _outer(ctx, cc, c2, f"weibull/{path}", "weibull/log-hazard-mismatch", res, want, tol, alt=alt, atol=atol_w)
                 _penalty_outer(ctx, cc, c2, -cc._np(res), early, T, rho_b, f"weibull/{path}")
             else:
                 got = cc._np(res.value)
-                ok = _outer(ctx, cc, c2, f"weibull/{path}", "weibull/nll-entry-mismatch", res.value, np.where(early, np.nan, T["nll"]), tol, alt=alt)
+                ok = _outer(ctx, cc, c2, f"weibull/{path}", "weibull/nll-entry-mismatch", res.value, np.where(early, np.nan, T["nll"]), tol, alt=alt, atol=atol_w)
                 _penalty_outer(ctx, cc, c2, got, early, T, rho_b, f"weibull/{path}")
                 cens = ~T["observed"]
                 if got.shape == cens.shape and cens.any():
-                    bad, _ = cc.bad_entries(got, T["neg_log_S"], tol[0], tol[1], cens)
+                    bad, _ = cc.bad_entries(got, T["neg_log_S"], tol[0], atol_w, cens)
                     if bad.any():
                         ctx.violation("weibull/censored-not-survival-only", f"[weibull/{path}] a censored individual contributes something else than -log S(t)", c2)
             if ok:
